@@ -348,7 +348,7 @@ def spec_ctor(c, cls, z, **kwargs):
 
 
 for _cls in SIGNAL_CLASSES:
-    _c = Contract(f"pulsarbat.core.{_cls}.__init__", spec_ctor, inst_ctor(_cls), props=("C16",), body=ctor_body)
+    _c = Contract(f"pulsarbat.core.{_cls}.__init__", spec_ctor, inst_ctor(_cls), props=("C16", "C09"), body=ctor_body)
     _c.real_call = ctor_real
     CONTRACTS.append(_c)
 
